@@ -136,6 +136,42 @@ def float_linearised(chk: Check, n):
                 break
 
 
+def equivalence_under_config(chk: Check, n):
+    """Mean(value[, covariate]) == RatioOfMeans(value, None, covariate, None) also when the options come from the
+    global configuration (nothing passed explicitly), and both equal the metric built with those options spelled out."""
+    import numpy as np
+    import pyarrow as pa
+    import tea_tasting as tt
+    rng = np.random.default_rng(chk.seed + 77)
+    for k in range(n):
+        alt, ev, ut = CELLS[k % len(CELLS)]
+        cl = float(rng.choice([0.5, 0.8, 0.9, 0.99]))
+        nc, nt = int(rng.integers(5, 60)), int(rng.integers(5, 60))
+        x = rng.normal(3, 1, nc + nt)
+        c = 0.6 * x + rng.normal(0, 1, nc + nt)
+        data = pa.table({"variant": [0] * nc + [1] * nt, "x": x, "c": c})
+        cov = "c" if k % 2 else None
+        opts = dict(alternative=alt, equal_var=ev, use_t=ut, confidence_level=cl)
+        with tt.config_context(**opts):
+            a = tt.Mean("x", cov)
+            b = tt.RatioOfMeans("x", None, cov, None)
+        spelled = tt.Mean("x", cov, **opts)
+        chk.case(("equiv-config", alt, ev, ut, cl, bool(cov)))
+        chk.branch("equivalence:under-config")
+        try:
+            ra, rb, rs_ = (m.analyze(data, 0, 1, "variant") for m in (a, b, spelled))
+        except Exception as ex:  # noqa: BLE001
+            chk.fail("analysis raised", dict(options=opts, error=repr(ex)))
+            continue
+        for name, other in (("RatioOfMeans(value, None, covariate, None)", rb), ("Mean with the options spelled out", rs_)):
+            for f in FIELDS:
+                u, v = float(getattr(ra, f)), float(getattr(other, f))
+                if not (u == v or (u != u and v != v)):
+                    chk.fail(f"Mean built under config_context differs from {name} in field {f}",
+                             dict(options=opts, covariate=cov, field=f, mean=u, other=v, n=[nc, nt], seed=chk.seed))
+                    break
+
+
 def main():
     chk = Check(PROP)
     chk.trusted = common.BASE_TRUST + [
@@ -154,6 +190,7 @@ def main():
         run_cases(chk, build(chk, 96), family=2, with_gen=have_model, label="[family 2] ")
     equivalences(chk, 24 if chk.tier == "quick" else 240)
     float_linearised(chk, 36 if chk.tier == "quick" else 360)
+    equivalence_under_config(chk, 24 if chk.tier == "quick" else 240)
     chk.cov["rule"] = ("random rational numerator/denominator data (2..28 rows per variant, balanced and 1:many, "
                        "any correlation), all 12 option cells, random confidence levels; equivalences Mean / "
                        "RatioOfMeans(None) / RatioOfMeans(ones) with and without covariate")
